@@ -22,6 +22,7 @@
 /* virtual clock (microseconds), advanced by the gaps of the case and, for a termtype written
  * "<name>@<usec>", by <usec> inside every key / mouse handler (an application that takes its time) */
 static long long vclock, handler_usec;
+static int claim;   /* termtype written "<name>%": the handlers CLAIM every event (return 1) */
 int __wrap_gettimeofday(struct timeval *tv, void *tz)
 {
   long long v = 1000000LL * 1000000LL + vclock;
@@ -53,7 +54,7 @@ static int on_key(TickitTerm *tt, TickitEventFlags flags, void *_info, void *dat
   for(size_t i = 0; i < n; i++) OUT("%02x", (unsigned char)info->str[i]);
   OUT(" ");
   vclock += handler_usec;
-  return 0;
+  return claim;
 }
 
 static int on_mouse(TickitTerm *tt, TickitEventFlags flags, void *_info, void *data)
@@ -61,7 +62,7 @@ static int on_mouse(TickitTerm *tt, TickitEventFlags flags, void *_info, void *d
   TickitMouseEventInfo *info = _info;
   OUT("m%d:%d:%d:%d:%d ", info->type, info->button, info->line, info->col, info->mod);
   vclock += handler_usec;
-  return 0;
+  return claim;
 }
 
 int main(void)
@@ -72,6 +73,7 @@ int main(void)
     outn = 0; out[0] = 0; vclock = 0;
     size_t len; unsigned char *b = vh_hex(vh_tok[1], &len);
     { char *at = strchr(vh_tok[0], '@'); handler_usec = at ? atoll(at + 1) : 0; if(at) *at = 0; }
+    { char *cl = strchr(vh_tok[0], '%'); claim = cl != NULL; if(cl) *cl = 0; }
     /* a leading '!' marks a stream with malformed parts (robustness only, see tools/props/C20.py) */
     TickitTerm *tt = tickit_term_build(&(struct TickitTermBuilder){ .termtype = vh_tok[0] + (vh_tok[0][0] == '!') });
     if(!tt) { printf("ERR noterm\n"); fflush(stdout); free(b); continue; }
